@@ -143,6 +143,19 @@ impl TreeNodeWithPreviousValue {
         // version of this node.
         if self.latest_node.last_epoch > target_epoch {
             if let Some(previous_node) = &self.previous_node {
+                if previous_node.last_epoch > target_epoch {
+                    // Only one previous version is retained. If that one is newer than the target epoch
+                    // as well (the caller's view of the directory is two or more epochs behind this node),
+                    // the version of the node as of the target epoch is not available anymore. Returning
+                    // the previous version regardless would mix the state of a later epoch into the answer.
+                    return Err(StorageError::Other(format!(
+                        "TreeNode {:?} has no retained version at or before epoch {} (the retained versions are from epochs {} and {})",
+                        NodeKey(self.label),
+                        target_epoch,
+                        previous_node.last_epoch,
+                        self.latest_node.last_epoch
+                    )));
+                }
                 Ok(previous_node.clone())
             } else {
                 // no previous, return not found
